@@ -7,6 +7,10 @@ Driver for the indent model.
   spec.indent <pre> <s>                     -> hex of the byte-level rendering
   writes <pre> (<chunk> <accept>)*          -> reached ; n:err n:err ...     (accept = `-` success, else k with error)
   spec.count <pre> <atStart 0/1> <chunk> <k> -> number of caller bytes among the first k output bytes
+  spec.writes <pre> (<chunk> <accept>)*     -> reached ; n:err ... | s s ...   what the specification asks of a
+       history in which the caller goes on writing after short writes (Spec.Indent.history); s = line state
+       after each call per the specification: 1 = at a line start, 0 = not, x = a cut inside a prefix (the
+       answer stops at that call)
 -/
 open Goyang Goyang.Proto
 
@@ -33,6 +37,13 @@ def handle : List String → String
     | some p, some cs =>
       let (out, res) := Model.Indent.writes p false cs
       encBytes out ++ " ;" ++ String.join (res.map fun (n, e) => s!" {n}:{if e then 1 else 0}")
+    | _, _ => "bad-op"
+  | "spec.writes" :: p :: rest =>
+    match decBytes p, pairs rest with
+    | some p, some cs =>
+      let (out, res) := Spec.Indent.history p true cs
+      encBytes out ++ " ;" ++ String.join (res.map fun (n, e, _) => s!" {n}:{if e then 1 else 0}") ++ " |" ++
+        String.join (res.map fun (_, _, st) => match st with | none => " x" | some true => " 1" | some false => " 0")
     | _, _ => "bad-op"
   | "nested" :: p1 :: p2 :: rest =>
     -- nested <inner prefix> <outer prefix> (<chunk> <o|i>)*   (o = Write on the outer writer)
